@@ -27,7 +27,7 @@ Section Run.
     - destruct body as [|s rest].
       + exists [], g. intro e'. reflexivity.
       + cbn in Hc. apply andb_true_iff in Hc. destruct Hc as [Hs Hrest].
-        destruct s as [|c a|w]; try discriminate.
+        destruct s as [|c a|w|w s1]; try discriminate.
         * (* draw *)
           destruct (draw g) as [v g1] eqn:Ed.
           destruct (IH rest g1 Hrest) as [o2 [g2 H2]].
@@ -188,6 +188,36 @@ Section Chunks.
   Qed.
 End Chunks.
 
+(* ---- (iv) rows filled from one generator: the blocking is irrelevant -------------------------- *)
+Section Fill.
+  Context {G A : Type}.
+  Variable draw : G -> A * G.
+
+  Lemma fill_app : forall a b g,
+    fill draw (a + b) g = let (vs, g1) := fill draw a g in let (ws, g2) := fill draw b g1 in (vs ++ ws, g2).
+  Proof.
+    induction a as [|a IH]; intros b g.
+    - cbn. destruct (fill draw b g). reflexivity.
+    - cbn [Nat.add fill]. destruct (draw g) as [v g1]. rewrite IH.
+      destruct (fill draw a g1) as [vs g2]. destruct (fill draw b g2) as [ws g3]. reflexivity.
+  Qed.
+
+  Lemma fill_blocks_seq : forall sizes g, fill_blocks draw sizes g = fill draw (list_sum sizes) g.
+  Proof.
+    induction sizes as [|n t IH]; intro g; [reflexivity|].
+    cbn [fill_blocks]. change (list_sum (n :: t)) with (n + list_sum t). rewrite fill_app. destruct (fill draw n g) as [vs g1]. rewrite IH. reflexivity.
+  Qed.
+End Fill.
+
+(* one child generator per block: the rows depend on how many blocks (threads) there are.
+   Generators are counters, the i-th child of g starts at g + 1000 * (i + 1). *)
+Definition demo_draw (g : Z) : Z * Z := (g, (g + 1)%Z).
+Definition demo_child (g : Z) (i : nat) : Z := (g + 1000 * (Z.of_nat i + 1))%Z.
+Lemma children_depend_on_block_count :
+  fill_children demo_draw demo_child 0 [4] 7%Z <> fill_children demo_draw demo_child 0 [2; 2] 7%Z /\
+  fst (fill_blocks demo_draw [4] 7%Z) = fst (fill_blocks demo_draw [2; 2] 7%Z).
+Proof. split; [discriminate|reflexivity]. Qed.
+
 Lemma concat_map_concat : forall A B (f : A -> list B) (ls : list (list A)),
   concat (map (fun blk => concat (map f blk)) ls) = concat (map f (concat ls)).
 Proof.
@@ -205,6 +235,14 @@ Definition demo_resolve (c : String.string) : option fn :=
 Definition demo_run (body : list stmt) (seed ambient_state : Z) : list Z :=
   fst (fst (run (fun g => (g, (g + 1)%Z)) (fun _ g => ([], g)) (fun e => (e, (e + 1)%Z)) (fun e => (e, (e + 1)%Z))
                 demo_resolve 5 body seed ambient_state)).
+
+(* a draw that happens only when ambient state says so (a sample logged at DEBUG level, drawn from the
+   training generator) shifts every later draw: same seed, different results *)
+Lemma ambient_conditional_can_differ :
+  demo_run [SCond "logging-level" SDraw; SDraw] 42 0 <> demo_run [SCond "logging-level" SDraw; SDraw] 42 1 /\
+  demo_run [SDraw; SDraw] 42 0 = demo_run [SDraw; SDraw] 42 1 /\
+  forall w s, stmt_closed (SCond w s) = false.
+Proof. split; [discriminate|split; reflexivity]. Qed.
 
 Lemma unclosed_can_differ :
   demo_run [SCall "crossfold" AOmitted] 42 0 <> demo_run [SCall "crossfold" AOmitted] 42 1 /\
